@@ -43,6 +43,10 @@ def run(run, ix, tier):
     run.rule('G-R2', floor=3, desc='no no-effect comparison statements')
     run.rule('G-R3', floor=4, desc='hash composition and eq/hash pairing')
     run.rule('G-R4', floor=12, desc='exact conversions and operator dispatch')
+    # G-R5: the order / equality kernels on every pair of operand classes (sa/checks/special_rules.py)
+    from .special_rules import check_order_tables
+    run.rule('G-R5', floor=150, desc='eq/lt/le/gt/ge on every pair of operand classes (nan unordered, infinities, zero)')
+    check_order_tables(run, ix, 'G-R5')
 
     fh = ix.func(LIBMPF, 'mpf_hash')
     fc = ix.func(LIBMPC, 'mpc_hash')
